@@ -426,26 +426,39 @@ def datatype_reuse(res, rng, n):
         x = cls(v)
         steps = [("new", repr(v))]
         final = v
+        # the operations are drawn first (the random stream does not depend on what the implementation does)
+        plan = []
         for _ in range(rng.randint(1, 4)):
             op = rng.choice(["to_bytes", "size", "unpack", "unpack", "value"])
-            if op == "to_bytes":
-                x.to_bytes()
-            elif op == "size":
-                x.size
-            elif op == "value":
-                x.value
+            if op == "unpack":
+                plan.append((op, _rand_value(rng, cls), bytes(rng.randrange(256) for _ in range(rng.randint(0, 4)))))
             else:
-                w = _rand_value(rng, cls)
-                rest = bytes(rng.randrange(256) for _ in range(rng.randint(0, 4)))
-                x.unpack(cls(w).to_bytes() + rest)
-                final = w
-            steps.append((op,) if op != "unpack" else (op, repr(final)))
-        # a fresh instance unpacked from the same bytes is the reference for value/size
-        ref = cls.from_bytes(cls(final).to_bytes() + b"\x01\x02")
-        got, want = _dt_obs(x), _dt_obs(ref)
+                plan.append((op, None, b""))
+        raised = None
+        try:
+            for op, w, rest in plan:
+                steps.append((op,) if op != "unpack" else (op, repr(w)))
+                if op == "to_bytes":
+                    x.to_bytes()
+                elif op == "size":
+                    x.size
+                elif op == "value":
+                    x.value
+                else:
+                    x.unpack(cls(w).to_bytes() + rest)
+                    final = w
+            # a fresh instance unpacked from the same bytes is the reference for value/size
+            ref = cls.from_bytes(cls(final).to_bytes() + b"\x01\x02")
+            got, want = _dt_obs(x), _dt_obs(ref)
+        except Exception as e:  # noqa: BLE001 -- every value here is representable: no operation of the sequence may raise
+            raised = type(e).__name__
         res.case(("dt_reuse", cls.__name__, tuple(steps)), True)
         res.count("reuse:datatype:" + cls.__name__)
         inp = dict(t="datatype_reuse", cls=cls.__name__, steps=[list(s) for s in steps])
+        if raised is not None:
+            res.fail("spec", inp, "pack / unpack / size / value of representable values succeed", dict(raised=raised, after=list(steps[-1])),
+                     "an operation on a representable value raised (packing the value an instance holds after unpacking its own packed form)")
+            continue
         if got != want:
             res.fail("spec", inp, want, got,
                      "a re-used data type instance: value / size / packed form after unpack differ from a fresh instance "
